@@ -19,5 +19,5 @@ def run(ctx, replay=None):
                            assumptions=[pc.PFCP_NOTE, "byte-level stream: structure-aware mutations (every leaf IE x flag octet x "
                                         "boundary value x tail length systematically, plus random ones) of valid messages, each with its "
                                         "own sequence number, after a valid prefix, against the model data plane and against the REAL gtp5g "
-                                        "driver over the simulated kernel; validation, not proof"],
+                                        "driver over the simulated kernel; validation, not proof", "write-failure phase: Session Report Requests whose first transmission fails in the socket, followed by responses / time-outs with that sequence number and a Heartbeat; monitor only (the model has no write failures)"],
                            extra_phase=wfail_phase.both(wfail_phase.phase("C07"), fuzz_phase.phase), directed=pc.directed_c05)
